@@ -678,7 +678,9 @@ func c06Catalogue() []*c06Fault {
 				bad = append(c06U32(9), bad...)
 			}
 			m.wdrExtra = bad
-			return func(w c06Walked) bool { return w.ok && w.wdrFits && len(w.wdr) >= len(bad) && string(w.wdr[len(w.wdr)-len(bad):]) == string(bad) }, true
+			return func(w c06Walked) bool {
+				return w.ok && w.wdrFits && len(w.wdr) >= len(bad) && string(w.wdr[len(w.wdr)-len(bad):]) == string(bad)
+			}, true
 		}),
 		c06StructFault("nlri-prefixlen:33", c06RuleReset(c06CNetField), func(m *c06Msg, s c06Sess) (func(w c06Walked) bool, bool) {
 			if len(m.nlri) == 0 {
